@@ -176,24 +176,28 @@ pub struct Interp<'h> {
     global: Env,
 }
 
-const LIPE_CORE: &[&str] = &[
+pub const SPECIAL_FORMS: &[&str] = &[
+    "quote", "use-modules", "if", "when", "unless", "and", "or", "begin", "lambda", "let*", "let", "letrec", "letrec*",
+    "define", "with-mutex",
+];
+pub const LIPE_CORE: &[&str] = &[
     "uid", "gid", "ino", "nlink", "size", "blocks", "mode", "atime", "ctime", "mtime", "projid", "name", "user",
     "group", "type", "file-fid", "absolute-path", "relative-path", "lov-stripe-count", "lov-stripe-size",
     "lov-mirror-count", "lov-pools", "xattr-ref-string", "xattr?", "xattr-match?", "empty", "executable", "readable",
     "writable", "lipe-scan", "lipe-scan-break", "lipe-getopt-client-mount-path", "lipe-getopt-required-attrs",
     "lipe-getopt-thread-count", "lipe-scan-client-mount-path", "type->char",
 ];
-const LIPE_FIND: &[&str] = &[
+pub const LIPE_FIND: &[&str] = &[
     "call-with-name", "call-with-relative-path", "call-with-absolute-path", "streq?", "streq-ci?", "fnmatch?",
     "fnmatch-ci?", "round-up-power-of-2", "print-relative-path", "print-file-fid", "make-printer",
 ];
-const CORE: &[&str] = &[
+pub const CORE: &[&str] = &[
     "=", "<", ">", "<=", ">=", "+", "-", "*", "/", "quotient", "remainder", "modulo", "logand", "logior", "lognot",
     "not", "eq?", "eqv?", "equal?", "string=?", "member", "string", "string-append", "number->string", "format",
     "display", "write-char", "newline", "make-mutex", "lock-mutex", "unlock-mutex", "current-output-port",
     "open-file", "open-output-file", "close-port", "dirname", "basename", "strftime", "localtime", "gmtime", "list",
     "cons", "car", "cdr", "null?", "zero?", "dynamic-wind", "string?", "number?", "min", "max", "abs", "1+", "1-",
-    "force-output", "string-length", "values", "identity",
+    "force-output", "string-length", "values", "identity", "%probe",
 ];
 
 impl<'h> Interp<'h> {
@@ -867,6 +871,13 @@ impl<'h> Interp<'h> {
             "zero?" => { argc(1)?; Ok(Val::Bool(to_rat(&a[0], name)?.0 == 0)) }
             "not" => { argc(1)?; Ok(Val::Bool(!truthy(&a[0]))) }
             "identity" => { argc(1)?; Ok(a[0].clone()) }
+            "%probe" => {
+                // harness-only: report (index, truthiness) of a value without short-circuiting
+                argc(2)?;
+                let t = if truthy(&a[1]) { "T" } else { "F" };
+                self.host.write(9999, &format!("{}:{t}", int(0)?));
+                Ok(a[1].clone())
+            }
             "values" => { argc(1)?; Ok(a[0].clone()) }
             "eq?" | "eqv?" | "equal?" => { argc(2)?; Ok(Val::Bool(equal(&a[0], &a[1]))) }
             "string=?" => { argc(2)?; Ok(Val::Bool(string(0)? == string(1)?)) }
@@ -1081,6 +1092,14 @@ fn quote(n: &Node) -> Val {
         Datum::Str(s) => Val::Str(Rc::from(s.as_str())),
         Datum::Char(c) => Val::Char(*c),
         Datum::Bool(b) => Val::Bool(*b),
+    }
+}
+
+/// The value a name has in the environment a closure was created in.
+pub fn closure_lookup(closure: &Val, name: &str) -> Option<Val> {
+    match closure {
+        Val::Closure(c) => lookup(&c.env, name),
+        _ => None,
     }
 }
 
